@@ -135,11 +135,49 @@ def crafted_bec2(r, body_of):
     return out
 
 
+PROBE_BF2 = [
+    "##Bf3Update: 1\n" + ":0000FE00\n:0000%02X0403000011\n:0000FF00\n" % t for t in (0x35, 0x39, 0x3D, 0x40)
+] + ["##Bf3Update: 1\n#>SELECT_IF PROTOCOL=BRP\n:0000FE00\n:0000%02X0403000011\n:0000FF00\n" % t for t in (0x70, 0x83)] + [
+    "##Bf3Update: 1\n:0000FE00\n:0000840403000011\n:0000FF00\n"]
+
+
+def behaviour_probe():
+    """Results of a fixed set of calls with fixed valid inputs.  Taken before and after the corpus: identical inputs must give
+    identical results whatever ran in between (library-global state unchanged, judged by behaviour, so that a harmless
+    internal cache is not an alarm but a cache that changes results is)."""
+    out = []
+    for t in PROBE_BF2:
+        try:
+            f = Bf3File.bf2_import(io.StringIO(t))
+            out.append(("bf2", sorted(f.comments.items()), [(sorted((k, bytes(v)) for k, v in c.description.items()), bytes(c.blob)) for c in f.components]))
+        except Exception as e:                               # noqa: BLE001
+            out.append(("bf2-raise", type(e).__name__, str(e)))
+    for filt in (b"\x01\x01\x00\x9B", b"\x01\x01\x12\x34", b"\x01\x02\x80\x9B\x00\xAD"):
+        try:
+            out.append(("pfid2", pfid2_filter_to_str(filt)))
+        except Exception as e:                               # noqa: BLE001
+            out.append(("pfid2-raise", type(e).__name__))
+    for t in ("12345-0001-0002-03 name", "name (version 05)", "00001-9999-0000-07"):
+        try:
+            i = ConfigId.create_from_str(t)
+            out.append(("cfgid", i.customer, i.project, i.device, i.version, i.name, str(i)))
+        except Exception as e:                               # noqa: BLE001
+            out.append(("cfgid-raise", type(e).__name__))
+    f = Bf3File({}, [L.mk_comp({1: b"a"}, b"\x01\x02\x03")])
+    f.set_config({(0x0620, 0x06): b"n", (0x0620, 0x07): b"\x01", (0x1234, 0x01): b"xyz"})
+    b = f.to_binary(5, bytes(range(16)))
+    out.append(("bf3", bytes(b)))
+    g = Bf3File.read_file(io.StringIO(hex_text(BF3_FILE_SIG + b)), True, bytes(range(16)))
+    out.append(("bf3-read", [(sorted(c.description.items()), bytes(c.blob), c.actual_len) for c in g.components]))
+    return out
+
+
 def _worker(args):
     seed, n, tier = args
     import random
     r = random.Random(seed)
     rec = L.Rec()
+    probe0 = behaviour_probe()
     with Scratch("c14w") as wd, B2.Seams() as seams:
         orc = Oracle(wd)
         rcpts = G.Recipients(orc, r, 0)
@@ -238,6 +276,10 @@ def _worker(args):
                 b = bytes([1, r.choice([nb // 2 - 1 if nb >= 2 else 0, r.randrange(6)])]) + bytes(r.randrange(256) for _ in range(nb)) if r.random() < 0.7 \
                     else bytes(r.randrange(256) for _ in range(r.randrange(0, 12)))
                 call(rec, "pfid2_filter_to_str", lambda: pfid2_filter_to_str(b), label="fuzz")
+    probe1 = behaviour_probe()
+    diff = [(a[0], repr(a)[:300], repr(b)[:300]) for a, b in zip(probe0, probe1) if a != b]
+    rec.add({"op": "c14.call", "entry": "behaviour-probe(after the corpus)", "kind": "ok", "mro": [], "cls": "", "site": "", "timeout": 0,
+             "reg_same": 0 if diff else 1, "label": "probe", "msg": repr(diff)[:900]})
     for e in rec.events:
         e.pop("tid", None)
     return rec.events
